@@ -30,6 +30,10 @@ def gen_config(rng, small=False, low=0.08):
         fs = float(rng.choice([32., 64., 50., 25.]))
         f_lo = float(rng.choice([0.25, 0.5]))
         return fs, f_lo, 3 * f_lo
+    if rng.random() < 0.05:
+        # a fast rhythm whose upper band edge lies within 1 Hz of the Nyquist frequency (still a valid band)
+        fs = float(rng.choice([100., 128.]))
+        return fs, float(rng.choice([25., 30.])), fs / 2 - float(rng.choice([0.25, 0.5]))
     fs = float(rng.choice(FS_CHOICES[:5] if small else FS_CHOICES))
     f_lo = float(rng.choice([2, 4, 6, 8, 13, 20]))
     f_hi = f_lo + float(rng.choice([2, 4, 6, 8, 10]))
